@@ -62,6 +62,12 @@ PROPS["C20"] = {"units": [], "engine": "kani",
     "level_note": "CBMC's model of the compiled MIR; renderings (Display/as_disjunction/as_conjunction) are not covered by Kani (fmt is prohibitively expensive under CBMC) -- see the bounded stand-in",
     "technique": "Kani/CBMC complete finite-domain harnesses on the real crate", "design_ref": "DESIGN.md §6.8"}
 
+PROPS["C11"] = {"units": ["nav"], "kani": [], "replay": [], "title": "Code-map offsets navigate correctly", "level": "proof",
+    "level_text": "Value::get_fragment, get_array_fragment, Object::get_fragment and Entry::get_fragment are proved (with termination) to return the i-th fragment of the pre-order fragment list and the overshoot past the end; the mapped iterators over arrays and objects are proved to yield the offsets index+1+sum of the preceding sub-tree sizes given a code map of the shape C05 guarantees.",
+    "level_note": "assumed: vstd's slice iterator specs; payload types opaque. Not under contract: the key-based mapped lookups (macro-generated), Traverse, TryFromJson conversions (closures/collect) -- bounded stand-in only",
+    "design_ref": "DESIGN.md §6.5"}
+PROPS["C20"]["units"] = ["nav"]
+
 NOT_APPLICABLE = {
     "C16": "serde Serializer/Deserializer plumbing: every deciding fact (derive expansion, number formatting, serde_json's shape) lives in dependencies whose behaviour would be assumed; no contract within reach decides it (DESIGN.md §7)",
     "C17": "same as C16: the deciding case analysis is inside json-number's Serialize/Deserialize; the in-repo ingredient (duplicate keys collapse through Object::insert) is covered by C06 (DESIGN.md §7)",
